@@ -19,4 +19,5 @@ func init() {
 	pow1.SimSpawn, pow2.SimSpawn = kernel.Spawn, kernel.Spawn
 	pow1.SimBind, pow2.SimBind = kernel.Bind, kernel.Bind
 	pow1.SimLockAcquire, pow2.SimLockAcquire = kernel.LockAcquire, kernel.LockAcquire
+	pow1.SimPerm, pow2.SimPerm = kernel.Perm, kernel.Perm
 }
